@@ -287,6 +287,11 @@ class WsDef:
                     self.stmt(br)
                 return
             self.scan(s.get("cond"))
+            if self.premise_true(s.get("cond")):
+                # "at least one segment" is a premise of every evaluation (validated before evaluate() may run): the
+                # guarded statements always execute
+                self.stmt(s.get("then"))
+                return
             before = dict(self.state)
             bidx = {f: set(v) for f, v in self.idx.items()}
             self.stmt(s.get("then"))
@@ -298,7 +303,7 @@ class WsDef:
             b = self.state
             self.state = {f: (a[f] if a[f] == b[f] else "P") for f in self.fields}
         elif k in ("for", "rfor", "while"):
-            flds = self.full_range_def(s) if k == "for" else []
+            flds = (self.full_range_def(s) + self.recurrence_def(s)) if k == "for" else []
             self.scan(s.get("init"))
             self.scan(s.get("range"))
             self.scan(s.get("cond"))
@@ -371,6 +376,60 @@ class WsDef:
         body = s.get("body")
         body = body.get("body", []) if isinstance(body, dict) and body.get("k") == "block" else [body]
         return self.element_defs(var, pp(cond["r"]), body)
+
+    def premise_true(self, cond):
+        """num_segments_ > 0 in any spelling, on the optimizer's own segment count"""
+        c = cond
+        while isinstance(c, dict) and c.get("k") in ("cast", "conv", "paren") and c.get("e") is not None:
+            c = c["e"]
+        if not (isinstance(c, dict) and c.get("k") == "bin"):
+            return False
+        l, r, op = pp(c["l"]), pp(c["r"]), c.get("op")
+        cnt = ("this.num_segments_", "num_segments_")
+        return ((l in cnt and ((op == ">" and r == "0") or (op == ">=" and r == "1") or (op == "!=" and r == "0")))
+                or (r in cnt and ((op == "<" and l == "0") or (op == "<=" and l == "1") or (op == "!=" and l == "0"))))
+
+    def recurrence_def(self, s):
+        """B[0] = ...;  for (int i = 1; i < SIZE; ++i) B[i] = <B only as B[i - 1]>;  element 0 was stored by this evaluation,
+        every further element is computed from its predecessor: the whole array is defined."""
+        init, cond, inc = s.get("init"), s.get("cond"), s.get("inc")
+        if not (isinstance(init, dict) and init.get("k") == "decl" and pp(init.get("init")) == "1"):
+            return []
+        var = init["id"]
+        if not (isinstance(cond, dict) and cond.get("k") == "bin" and cond.get("op") == "<" and cond["l"].get("k") == "var" and cond["l"].get("id") == var):
+            return []
+        if not (isinstance(inc, dict) and "++" in pp(inc)):
+            return []
+        body = s.get("body")
+        body = body.get("body", []) if isinstance(body, dict) and body.get("k") == "block" else [body]
+        vname = init.get("name")
+        out = []
+        from .facts import walk
+        for st in body:
+            if not (isinstance(st, dict) and st.get("k") == "expr"):
+                continue
+            e = st["e"]
+            l = r = None
+            if e.get("k") == "assign" and e.get("op") == "=":
+                l, r = e["l"], e["r"]
+            if l is None:
+                continue
+            base, partial, idx, iargs = self.strip_elem(l)
+            fld = self.field_of(base)
+            if not (fld is not None and partial and self.is_direct(base) and len(iargs) == 1 and iargs[0].get("k") == "var" and iargs[0].get("id") == var):
+                continue
+            if not (self.state.get(fld) == "P" and "0" in self.idx.get(fld, set()) and norm_size(pp(cond["r"])) == norm_size(self.sizes.get(fld, "?"))):
+                continue
+            ok = True
+            for x in walk(r):
+                if x.get("k") in ("subscript", "call"):
+                    b2, p2, i2, a2 = self.strip_elem(x)
+                    if p2 and self.field_of(b2) == fld:
+                        if not (len(a2) == 1 and pp(a2[0]).replace(" ", "") in ("(%s-1)" % vname, "%s-1" % vname)):
+                            ok = False
+            if ok:
+                out.append((fld, st))
+        return out
 
     def executor_def(self, e):
         """executor(0, SIZE, [&](int i) { ...; B[i] = <no B>; ... }): by the executor contract (C12's trusted base) the
